@@ -500,7 +500,7 @@ func c12(c *Ctx) {
 			for _, in := range b.Instrs {
 				if mu, ok := in.(*ssa.MapUpdate); ok {
 					if k, ok := cfgx.ConstString(mu.Key); ok && k == "crossplane.io/composition-name" {
-						okName = mu.Block().Dominates(lastCallBlock(gl, clientList))
+						okName = cfgx.MustPass(mu.Block(), lastCallBlock(gl, clientList))
 					}
 				}
 			}
